@@ -7,6 +7,7 @@ CONSTANTS
   MaxRules = 1
   FixedRules = {}
   EdbChoices <- E2Edbs
+  ExtraRules = {}
   Randomized = FALSE
   Keep <- KeepE2
 INVARIANT Emit
